@@ -15,32 +15,44 @@ Definition outcome_of {A} (r : res A) : outcome :=
 Definition outcome_eqb (a b : outcome) : bool :=
   match a, b with OOk, OOk | OErr, OErr | OPanic, OPanic => true | _, _ => false end.
 
+(* What the harness measured with the standard library for THIS case's key, message and
+   signature bytes.  [o_msg = None]: the digests are of the case's own message argument. *)
 Record oracle := {
-  o_msg : bytes;                             (* the message the digests below are of *)
-  o_digests : list (Z * bytes);              (* crypto.Hash id, digest of o_msg *)
-  o_rsa : list (Z * bytes * bytes * bool);   (* hash id, digest, signature, rsa.VerifyPKCS1v15 == nil *)
-  o_rs : list (bytes * Z * Z * bool);        (* digest, r, s, ecdsa.Verify / dsa.Verify (the case's key) *)
-  o_json : bool                              (* json.Unmarshal(o_msg, &LogList) == nil *)
+  o_msg : option bytes;                        (* the message the digests below are of *)
+  o_digests : list (Z * bytes);                (* crypto.Hash id, digest of the message *)
+  o_rsa : list (Z * bool);                     (* hash id -> rsa.VerifyPKCS1v15(key, hash, that digest, the case's signature) == nil *)
+  o_rs : option (Z * Z * list (Z * bool));     (* (r, s) read from the case's signature by the harness's X.690 reader;
+                                                  hash id -> ecdsa.Verify / dsa.Verify(key, that digest, r, s) *)
+  o_json : bool                                (* json.Unmarshal(message, &LogList) == nil *)
 }.
-Definition no_oracle : oracle := {| o_msg := []; o_digests := []; o_rsa := []; o_rs := []; o_json := false |}.
+Definition no_oracle : oracle := {| o_msg := None; o_digests := []; o_rsa := []; o_rs := None; o_json := false |}.
 
-Definition digest_of (o : oracle) (ht : Z) (m : bytes) : bytes :=
-  if bytes_eqb m (o_msg o) then
-    match find (fun e => Z.eqb (fst e) ht) (o_digests o) with Some e => snd e | None => [] end
+Definition lookup_digest (o : oracle) (ht : Z) : option bytes :=
+  match find (fun e => Z.eqb (fst e) ht) (o_digests o) with Some e => Some (snd e) | None => None end.
+Definition lookup_flag (tbl : list (Z * bool)) (ht : Z) : bool :=
+  match find (fun e => Z.eqb (fst e) ht) tbl with Some e => snd e | None => false end.
+Definition is_digest (o : oracle) (ht : Z) (dg : bytes) : bool :=
+  match lookup_digest o ht with Some d => bytes_eqb dg d | None => false end.
+
+(* msg0 / sig0: the case's own message and signature bytes *)
+Definition digest_of (o : oracle) (msg0 : bytes) (ht : Z) (m : bytes) : bytes :=
+  if bytes_eqb m (match o_msg o with Some x => x | None => msg0 end) then
+    match lookup_digest o ht with Some d => d | None => [] end
   else [].
-Definition rsa_of (o : oracle) (_ : key) (ht : Z) (dg sig : bytes) : bool :=
-  existsb (fun e => match e with (ht', dg', sig', ok) =>
-                      Z.eqb ht ht' && bytes_eqb dg dg' && bytes_eqb sig sig' && ok end) (o_rsa o).
+Definition rsa_of (o : oracle) (sig0 : bytes) (_ : key) (ht : Z) (dg sig : bytes) : bool :=
+  bytes_eqb sig sig0 && is_digest o ht dg && lookup_flag (o_rsa o) ht.
 Definition rs_of (o : oracle) (_ : key) (dg : bytes) (r s : Z) : bool :=
-  existsb (fun e => match e with (dg', r', s', ok) =>
-                      bytes_eqb dg dg' && Z.eqb r r' && Z.eqb s s' && ok end) (o_rs o).
-Definition json_of (o : oracle) (m : bytes) : bool := bytes_eqb m (o_msg o) && o_json o.
+  match o_rs o with
+  | Some (r0, s0, tbl) => Z.eqb r r0 && Z.eqb s s0 && existsb (fun e => snd e && is_digest o (fst e) dg) tbl
+  | None => false
+  end.
+Definition json_of (o : oracle) (msg0 : bytes) (m : bytes) : bool := bytes_eqb m msg0 && o_json o.
 
-Definition m_verify o := verify (digest_of o) (rsa_of o) (rs_of o) (rs_of o).
-Definition m_verify_sct o := verify_sct (digest_of o) (rsa_of o) (rs_of o) (rs_of o).
-Definition m_verify_sth o := verify_sth (digest_of o) (rsa_of o) (rs_of o) (rs_of o).
-Definition m_util o := util_verify_sct (digest_of o) (rsa_of o) (rs_of o) (rs_of o).
-Definition m_json o := new_from_signed_json (digest_of o) (rsa_of o) (rs_of o) (rs_of o) (json_of o).
+Definition m_verify o msg0 sig0 := verify (digest_of o msg0) (rsa_of o sig0) (rs_of o) (rs_of o).
+Definition m_verify_sct o sig0 := verify_sct (digest_of o []) (rsa_of o sig0) (rs_of o) (rs_of o).
+Definition m_verify_sth o sig0 := verify_sth (digest_of o []) (rsa_of o sig0) (rs_of o) (rs_of o).
+Definition m_util o sig0 := util_verify_sct (digest_of o []) (rsa_of o sig0) (rs_of o) (rs_of o).
+Definition m_json o msg0 sig0 := new_from_signed_json (digest_of o msg0) (rsa_of o sig0) (rs_of o) (rs_of o) (json_of o msg0).
 
 Inductive case :=
 | CVerify (k : key) (data : bytes) (sg : dsig) (o : oracle) (obs : outcome)
@@ -67,27 +79,27 @@ Definition res_bytes_eqb (a b : res bytes) : bool :=
 
 Definition check (c : case) : bool :=
   match c with
-  | CVerify k data sg o obs => outcome_eqb (outcome_of (m_verify o k data sg)) obs
+  | CVerify k data sg o obs => outcome_eqb (outcome_of (m_verify o data (ds_sig sg) k data sg)) obs
   | CDer sig obs => opt_eqb der_view_eqb (der_view sig) obs
   | CNewVerifier allow k obs => outcome_eqb (outcome_of (new_verifier allow k)) obs
   | CSctInput s e obs => res_bytes_eqb (sct_siginput s e) obs
   | CSthInput s obs => res_bytes_eqb (sth_siginput s) obs
-  | CSct k s e o obs => outcome_eqb (outcome_of (m_verify_sct o k s e)) obs
-  | CSth k s o obs => outcome_eqb (outcome_of (m_verify_sth o k s)) obs
-  | CUtil allow k s e o obs => outcome_eqb (outcome_of (m_util o allow k s e)) obs
-  | CJson k data raw o obs => outcome_eqb (outcome_of (fst (m_json o k data raw))) obs
+  | CSct k s e o obs => outcome_eqb (outcome_of (m_verify_sct o (ds_sig (sct_sig s)) k s e)) obs
+  | CSth k s o obs => outcome_eqb (outcome_of (m_verify_sth o (ds_sig (sth_sig s)) k s)) obs
+  | CUtil allow k s e o obs => outcome_eqb (outcome_of (m_util o (ds_sig (sct_sig s)) allow k s e)) obs
+  | CJson k data raw o obs => outcome_eqb (outcome_of (fst (m_json o data raw k data raw))) obs
   end.
 
 (* what the model computes: (outcome, DER view, signature input, JSON trace) *)
 Definition explain (c : case) : option outcome * option (option (Z * Z * N)) * option (res bytes) * option (list jstep) :=
   match c with
-  | CVerify k data sg o _ => (Some (outcome_of (m_verify o k data sg)), Some (der_view (ds_sig sg)), None, None)
+  | CVerify k data sg o _ => (Some (outcome_of (m_verify o data (ds_sig sg) k data sg)), Some (der_view (ds_sig sg)), None, None)
   | CDer sig _ => (None, Some (der_view sig), None, None)
   | CNewVerifier allow k _ => (Some (outcome_of (new_verifier allow k)), None, None, None)
   | CSctInput s e _ => (None, None, Some (sct_siginput s e), None)
   | CSthInput s _ => (None, None, Some (sth_siginput s), None)
-  | CSct k s e o _ => (Some (outcome_of (m_verify_sct o k s e)), Some (der_view (ds_sig (sct_sig s))), Some (sct_siginput s e), None)
-  | CSth k s o _ => (Some (outcome_of (m_verify_sth o k s)), Some (der_view (ds_sig (sth_sig s))), Some (sth_siginput s), None)
-  | CUtil allow k s e o _ => (Some (outcome_of (m_util o allow k s e)), None, Some (sct_siginput s e), None)
-  | CJson k data raw o _ => (Some (outcome_of (fst (m_json o k data raw))), Some (der_view raw), None, Some (snd (m_json o k data raw)))
+  | CSct k s e o _ => (Some (outcome_of (m_verify_sct o (ds_sig (sct_sig s)) k s e)), Some (der_view (ds_sig (sct_sig s))), Some (sct_siginput s e), None)
+  | CSth k s o _ => (Some (outcome_of (m_verify_sth o (ds_sig (sth_sig s)) k s)), Some (der_view (ds_sig (sth_sig s))), Some (sth_siginput s), None)
+  | CUtil allow k s e o _ => (Some (outcome_of (m_util o (ds_sig (sct_sig s)) allow k s e)), None, Some (sct_siginput s e), None)
+  | CJson k data raw o _ => (Some (outcome_of (fst (m_json o data raw k data raw))), Some (der_view raw), None, Some (snd (m_json o data raw k data raw)))
   end.
